@@ -53,8 +53,23 @@ PROGRAMS["defaults-in-pyproject"] = {"test_something.py": PROGRAMS["four-sites"]
 QUICK = ["defaults-in-pyproject", "two-files-later-category-only-first", "replace-all-members", "four-sites", "list-mixed", "sub-mixed", "hasrepr", "failing", "two-files", "in-mixed", "strings", "dataclass", "clean-file", "nested-snapshot", "never-compared"]
 
 
+GEN_BATCH = 12
+GEN_FS_QUICK = [[], ["create", "fix"], ["trim", "update"], list(CATS), ["fix"], ["create", "trim"], ["update"], ["create", "fix", "trim"]]
+
+
+def _gen_programs(tier):
+    """Generated projects: the slot programs of C09 (list / in / sub-snapshot / dataclass / nested / asserted / separate sites,
+    <= 3 slots) without the ones that outsource (property scope: no externals)."""
+    from . import c09
+
+    return [p for p in c09._programs(tier) if not (p["sh"] == "sites" and any(k.startswith("ext") for k in p["s"]))]
+
+
 def bounds(tier):
-    return {"programs": len(QUICK) if tier == "quick" else len(PROGRAMS), "subsets": 16, "drivers": ["run_inline", "run_pytest", "real session"]}
+    return {"programs": len(QUICK) if tier == "quick" else len(PROGRAMS), "subsets": 16, "drivers": ["run_inline", "run_pytest", "real session"],
+            "generated_programs": len(_gen_programs(tier)),
+            "generated_subsets": "one of 8 subsets per batch, rotating (quick)" if tier == "quick" else "all 16 subsets",
+            "generated_drivers": ["run_inline", "real session"], "generated_batch": GEN_BATCH}
 
 
 def build(tier, seed):
@@ -64,7 +79,79 @@ def build(tier, seed):
         for i in range(0, len(FS), 2):
             tasks.append({"prog": n, "fs": FS[i : i + 2]})
     tasks.append({"conformance": names[:4]})
+    gp = _gen_programs(tier)
+    for bi, i in enumerate(range(0, len(gp), GEN_BATCH)):
+        batch = gp[i : i + GEN_BATCH]
+        if tier == "quick":
+            tasks.append({"gen": batch, "fs": [GEN_FS_QUICK[bi % len(GEN_FS_QUICK)]]})
+        else:
+            for j in range(0, len(FS), 4):
+                tasks.append({"gen": batch, "fs": FS[j : j + 4]})
     return tasks
+
+
+def _gen_compare(progs, F):
+    """Both drivers on one project holding the given programs (one file each). Returns (list of per-program verdicts, changed?)"""
+    import os
+    from . import c09
+    from ..drivers import plugin
+    from ..drivers.inline import run_inline
+
+    files = {"test_p%02d.py" % i: c09.source(p) for i, p in enumerate(progs)}
+    r1 = run_inline(dict(files), F)
+    d = plugin.mk_project(dict({"pyproject.toml": ""}, **files))
+    try:
+        r2 = plugin.session(d, ["--inline-snapshot=" + ",".join(F + ["report"])])
+        after = plugin.listing(d, text=True)
+    finally:
+        plugin.cleanup()
+    verdicts = [None] * len(progs)
+    if r1["error"]:
+        return [("run_inline-raised", r1["error"]["type"] + ": " + r1["error"]["msg"][:300])] * len(progs), False
+    if plugin.internal_error(r2["out"]) or r2["rc"] not in (0, 1):
+        return [("real-session-internal-error", "rc=%s %s" % (r2["rc"], r2["out"][-600:]))] * len(progs), False
+    changed = False
+    for i, p in enumerate(progs):
+        n = "test_p%02d.py" % i
+        a = r1["files"].get(n)
+        b = after.get(n)
+        if b != files[n]:
+            changed = True
+        if a != b:
+            verdicts[i] = ("run_inline-differs-from-real-session", "flags %s\n--- run_inline ---\n%s\n--- real session ---\n%s\n--- before ---\n%s" % (
+                F, (a or "<missing>")[-500:], (b or "<missing>")[-500:], files[n][-500:]))
+    strict = lambda cs: sorted(c for c in cs if c != "update")  # noqa
+    ic = sorted(r1["reported"] or [])
+    rc = plugin.report_sections(r2["out"])
+    if strict(ic) != strict(rc) or ("update" in rc and "update" not in ic):
+        for i in range(len(progs)):
+            if verdicts[i] is None:
+                verdicts[i] = ("reported-categories-differ", "run_inline %s, real session shows %s (flags %s)" % (ic, rc, F))
+    return verdicts, changed
+
+
+def _gen_task(task):
+    out = {"n": 0, "nontrivial": [], "outcomes": {}, "violations": [], "samples": []}
+    from . import c09
+
+    for F in task["fs"]:
+        verdicts, changed = _gen_compare(task["gen"], F)
+        for p, v in zip(task["gen"], verdicts):
+            out["n"] += 1
+            ch = changed
+            if v is not None:  # judge again alone: programs of a batch must not fake each other's verdict
+                v1, ch = _gen_compare([p], F)
+                v = v1[0]
+            if v is not None:
+                out["violations"].append({"case": {"gen": p, "F": F}, "what": v[0], "detail": v[1]})
+                lab = "viol:" + v[0]
+            else:
+                lab = "generated-agree:" + ("changed" if ch else "unchanged")
+                if ch:
+                    out["nontrivial"].append("gen|" + repr(sorted(p.items())) + "|" + "+".join(F))
+            out["outcomes"][lab] = out["outcomes"].get(lab, 0) + 1
+    out["samples"].append({"generated_program": c09.source(task["gen"][0])[-300:], "subset": task["fs"][0]})
+    return out
 
 
 def _sections(text):
@@ -74,6 +161,9 @@ def _sections(text):
 
 
 def run_case(case):
+    if "gen" in case:
+        v, _ = _gen_compare([case["gen"]], case["F"])
+        return [] if v[0] is None else [{"case": case, "what": v[0][0], "detail": v[0][1]}]
     from inline_snapshot.testing import Example
     from ..drivers import plugin
     from ..drivers.inline import Cap, neutral_cwd
@@ -168,6 +258,8 @@ def _conformance(names):
 
 def run_task(task):
     out = {"n": 0, "nontrivial": [], "outcomes": {}, "violations": [], "samples": []}
+    if "gen" in task:
+        return _gen_task(task)
     if "conformance" in task:
         v, n = _conformance(task["conformance"])
         out["n"] = n
